@@ -45,7 +45,11 @@ Step ==
           /\ SuperQuery(t, c)
           /\ act' = [op |-> "superQuery", t |-> t, c |-> c]
 
-Next == Step /\ act'.op \in Ops /\ hist' = Append(hist, act')
+\* depth bound as an action guard: the out-of-bound frontier is never
+\* generated (as a CONSTRAINT it was re-generated and re-dumped once per
+\* incoming transition)
+DepthOK == TLCGet("level") < MaxDepth
+Next == DepthOK /\ Step /\ act'.op \in Ops /\ hist' = Append(hist, act')
 
 MCInit == Init /\ act = [op |-> "init"] /\ hist = <<>>
 View == vars
